@@ -93,7 +93,10 @@ Deleted == {x \in Ids : IsDel(x)}
 LC == AC \ Deleted                                              \* deleted claims do not count
 ClaimsOfPn == [p \in Pns |-> {c \in LC : Items[c].pn = p}]
 ClaimVid(c) == IF Items[c].valref # 0 THEN RefVidBase + Items[c].valref ELSE Items[c].val   \* 0 = no value
-ClaimBefore(c, d) == Items[c].date < Items[d].date \/ (Items[c].date = Items[d].date /\ c < d)
+(* Times are milliseconds after the worlds' epoch: an item's date (seconds) plus its nano field; the times in
+   constraints (at, time, modTime) are whole seconds. *)
+DateOf(x) == Items[x].date * 1000 + (Items[x].nano \div 1000000)
+ClaimBefore(c, d) == DateOf(c) < DateOf(d) \/ (DateOf(c) = DateOf(d) /\ c < d)
 Apply(v, c) == CASE Items[c].claim = "set" -> <<ClaimVid(c)>>
                  [] Items[c].claim = "add" -> Append(v, ClaimVid(c))
                  [] Items[c].claim = "del" -> IF ClaimVid(c) = 0 THEN <<>> ELSE SelectSeq(v, LAMBDA w : w # ClaimVid(c))
@@ -103,7 +106,7 @@ FoldC(s, i, v) == IF i > Len(s) THEN v ELSE FoldC(s, i + 1, Apply(v, s[i]))
 ValsAt(p, attr, signer, hasT, T) ==
   LET S == {c \in ClaimsOfPn[p] : /\ Items[c].attr = attr
                                   /\ (signer = 0 \/ Items[c].signer = signer)
-                                  /\ (~hasT \/ Items[c].date <= T)}
+                                  /\ (~hasT \/ DateOf(c) <= T * 1000)}
   IN FoldC(SetToSortSeq(S, ClaimBefore), 1, <<>>)
 AttrNames == ToSet(W.attrs)
 NowVals == [p \in Pns |-> [attr \in AttrNames |-> [sg \in {0, Owner} |-> ValsAt(p, attr, sg, FALSE, 0)]]]   \* evaluated once
@@ -113,14 +116,14 @@ Vals(p, attr, signer, hasT, T) ==
 MaxOf(S) == CHOOSE m \in S : \A x \in S : x <= m
 (* PermanodeModtime: newest non-deleted attribute claim of any signer (dd: the code also counts the
    date of a live delete claim on the permanode itself) *)
-ModOf(p, dd) == LET S == {Items[c].date : c \in ClaimsOfPn[p]}
-                         \cup (IF dd THEN {Items[d].date : d \in {d \in Dels \ Deleted : Items[d].target = p}} ELSE {})
+ModOf(p, dd) == LET S == {DateOf(c) : c \in ClaimsOfPn[p]}
+                         \cup (IF dd THEN {DateOf(d) : d \in {d \in Dels \ Deleted : Items[d].target = p}} ELSE {})
                 IN [has |-> S # {}, t |-> IF S = {} THEN 0 ELSE MaxOf(S)]
 PnMod0 == [p \in Pns |-> ModOf(p, FALSE)]
 PnMod1 == [p \in Pns |-> ModOf(p, TRUE)]
 PnMod(D) == IF "DeleteDateIsModtime" \in D THEN PnMod1 ELSE PnMod0
 (* pnCamliContent: the last set / del-attribute of camliContent *)
-CCApply(st, c) == CASE Items[c].claim = "set" -> [ref |-> Items[c].valref, t |-> Items[c].date]
+CCApply(st, c) == CASE Items[c].claim = "set" -> [ref |-> Items[c].valref, t |-> DateOf(c)]
                     [] Items[c].claim = "del" -> [ref |-> 0, t |-> 0]
                     [] OTHER -> st
 RECURSIVE FoldCC(_, _, _)
@@ -129,7 +132,7 @@ CCOf(p) == FoldCC(SetToSortSeq({c \in ClaimsOfPn[p] : Items[c].attr = "camliCont
 (* PermanodeAnyTime: time of the content (a file's time, else the date of the camliContent claim),
    else the modtime.  (The worlds do not use the explicit date attributes of nodeattr.) *)
 TimeOf(p, mod, ci) == LET cc == CCOf(p) IN
-             IF cc.ref # 0 /\ Kind(cc.ref) = "file" THEN [has |-> TRUE, t |-> Items[cc.ref].date]
+             IF cc.ref # 0 /\ Kind(cc.ref) = "file" THEN [has |-> TRUE, t |-> DateOf(cc.ref)]
              ELSE IF cc.ref # 0 /\ ~ci THEN [has |-> TRUE, t |-> cc.t]
              ELSE mod[p]
 PnTimeTab == [dd \in BOOLEAN |-> [ci \in BOOLEAN |-> [p \in Pns |-> TimeOf(p, IF dd THEN PnMod1 ELSE PnMod0, ci)]]]
@@ -160,7 +163,7 @@ PfxExact == [i \in 1..Len(W.prefixes) |-> W.prefixes[i].exact]
 EdgeAttrs == ToSet(W.edgeattrs)
 
 IntOK(v, lo, hi, zmax) == (lo # 0 => v >= lo) /\ ((hi # 0 \/ zmax) => v <= hi)       \* IntConstraint: 0 = don't check
-TimeOK(t, hasB, B, hasA, A) == (hasB => t < B) /\ (hasA => t >= A)                    \* TimeConstraint
+TimeOK(t, hasB, B, hasA, A) == (hasB => t < B * 1000) /\ (hasA => t >= A * 1000)      \* TimeConstraint (t in ms, bounds in s)
 
 (* ---------------- the matcher ---------------- *)
 RECURSIVE M(_, _, _, _), PnM(_, _, _, _), FileM(_, _, _, _), DirM(_, _, _, _)
